@@ -36,12 +36,12 @@ func runC10(r *Run, p *Prog) {
 	}
 	// ---- S1
 	r.Guard("S1", func() {
-		ds := decodeSites(entry)
+		ds := decodeSitesDeep(p, entry)
 		if len(ds) != 1 {
 			r.Unresolved("S1", "single decode of the request")
 			return
 		}
-		decErr := T.T(ds[0].Call)
+		decErr := ds[0].ErrTerm(T)
 		n := 0
 		for _, b := range entry.Blocks {
 			for _, s := range b.Succs {
@@ -179,7 +179,7 @@ func runC10(r *Run, p *Prog) {
 	}
 	// ---- S4
 	r.Guard("S4", func() {
-		for _, d := range decodeSites(entry) {
+		for _, d := range decodeSitesDeep(p, entry) {
 			ok, why := freshTarget(p, d)
 			r.Ob("S4", shortName(entry), "the request is decoded into a fresh zero value (null => empty call)", d.Call.Pos(), ok, why)
 		}
